@@ -64,7 +64,7 @@ def check_case(stats, case, tight):
 
 def run_shard(k, seed, tier):
     stats = Stats()
-    n = 150 if tier == 'quick' else 3000
+    n = 400 if tier == 'quick' else 6000
     strat = st.tuples(programs(features=SEQ_FEATURES), st.integers(0, 3))
 
     def chk(value):
